@@ -90,6 +90,9 @@ type Pipe struct {
 	WMarks []Mark
 	DMarks []Mark
 	readerGone bool
+	// WLog holds every byte accepted from the writer (only when Net.KeepLog is set): the harness's
+	// own ledger of what the library put on the wire, independent of delivery and of the peer.
+	WLog []byte
 	// BrokenOff is the cumulative offset at which a Write call of the writing end first returned an
 	// error (-1 = never). A failed write may have torn a frame, so the writer has declared the stream
 	// dead; whatever later Write calls still put on the wire before the socket is closed is not a
@@ -139,6 +142,8 @@ type Net struct {
 
 	LatMin time.Duration
 	Cap    int
+	// KeepLog makes every pipe record the bytes written into it (Pipe.WLog).
+	KeepLog bool
 
 	Dials, DialFails, Listens, ListenFails int
 	DialTimes                              []time.Duration
@@ -692,6 +697,9 @@ func (p *Pipe) enqueue(b []byte) {
 	}
 	p.Written += len(b)
 	p.WMarks = append(p.WMarks, Mark{p.Written, p.n.W.Now()})
+	if p.n.KeepLog {
+		p.WLog = append(p.WLog, b...)
+	}
 	if p.readerGone && p.sink == nil {
 		return // the other end has closed: bytes vanish
 	}
